@@ -169,6 +169,37 @@ func runProperty(eng *Engine, prop, tier string, seed int, loadSecs float64) *Ch
 		}
 		obls = append(obls, fr.Obls...)
 	}
+	// zero-annotation no-panic sweep over every registered builtin (C03)
+	if prop == "C03" {
+		done := map[string]bool{}
+		for _, f := range run.Funcs {
+			done[f] = true
+		}
+		ents := eng.collectBuiltins()
+		for _, ent := range ents {
+			if done[shortFn(ent.Fn)] {
+				continue
+			}
+			con := eng.conOf[ent.Fn]
+			if con == nil {
+				con = eng.sweepContract(ent)
+			}
+			if con == nil || con.NoSweep {
+				continue
+			}
+			fr := eng.genFunc(ent.Fn, con)
+			run.Funcs = append(run.Funcs, shortFn(ent.Fn))
+			for n := range fr.VC.unsup {
+				run.Assumptions["unsupported construct abstracted by havoc in "+shortFn(ent.Fn)+": "+n] = true
+			}
+			for _, o := range fr.Obls {
+				if safetyKind(o.Kind) || o.Kind == "cover" {
+					obls = append(obls, o)
+				}
+			}
+		}
+		run.Assumptions[fmt.Sprintf("sweep: %d builtin table entries; precondition of each = arity from its registered Formals (what bind guarantees), non-nil cells, a pushed frame", len(ents))] = true
+	}
 	// lemmas
 	for _, lm := range eng.cs.Lemmas {
 		if hasString(lm.Props, prop) {
@@ -203,6 +234,14 @@ func runProperty(eng *Engine, prop, tier string, seed int, loadSecs float64) *Ch
 	for _, r := range results {
 		it := &Item{Name: r.O.Name, Kind: r.O.Kind, Solver: r.R.Solver, Secs: r.R.Secs, Pos: r.O.Pos, File: r.File, Locked: locked[r.O.Name], Func: r.O.Func, Raw: r.R.Output}
 		it.contract = contractKind(r.O.Kind)
+		// a contract clause is locked as a clause: a new instance of it (a new call
+		// site of an assert-at callee, a new return path) is covered by the same lock
+		if !it.Locked && it.contract {
+			if i := strings.LastIndex(r.O.Name, "#"); i > 0 && locked[r.O.Name[:i]] {
+				it.Locked = true
+				it.Detail = "new instance of a locked contract clause; "
+			}
+		}
 		if fi, err := os.Stat(r.File); err == nil {
 			it.SMTBytes = int(fi.Size())
 		}
@@ -221,13 +260,13 @@ func runProperty(eng *Engine, prop, tier string, seed int, loadSecs float64) *Ch
 			it.Status = "discharged"
 		case r.R.Status == "sat" && !r.O.Cover:
 			it.Status = "failed"
-			it.Detail = "solver found a counter-model"
+			it.Detail += "solver found a counter-model"
 		case r.R.Status == "unsat" && r.O.Cover:
 			it.Status = "failed"
 			it.Detail = "vacuous: precondition/path is unsatisfiable"
 		default:
 			it.Status = "undecided"
-			it.Detail = "no solver decided within the budget"
+			it.Detail += "no solver decided within the budget"
 		}
 		run.Items = append(run.Items, it)
 	}
